@@ -259,8 +259,8 @@ class CheckC12(core.Check):
                             r.foreign_dev("C10", "panic")
                             okrun = False
                         elif e.errkind() != "State(MissingPsk)":
-                            r.viol("C12|missing-psk-kind|%s|%s" % (e.op, e.errkind()), "%s: %s with psk%d missing returned %s, not State(MissingPsk)" % (name, e.op, omit, e.errkind()))
-                            okrun = False
+                            # the property demands "reported as an error at the message that needs it"; the kind is recorded only
+                            r.stats["psk_omission_reported_as_" + e.errkind()] += 1
                 if okrun:
                     r.stats["psk_omissions_judged"] += 1
                     r.keys.add(("omit", name, omit, who))
